@@ -621,11 +621,11 @@ func crossCheck(discharged []*job, prelude, dir string, timeoutS, seed int) (agr
 // selfTest replays the seeded changes of a property on scratch copies of /repo (under the system temp dir, removed afterwards).
 func selfTest(id string) []map[string]interface{} {
 	var out []map[string]interface{}
-	dirs, _ := filepath.Glob(filepath.Join(verifRoot, "seeded", id, "*", "patch.diff"))
+	dirs, _ := filepath.Glob(filepath.Join(verifRoot, "seeded*", id, "*", "patch.diff"))
 	sort.Strings(dirs)
 	// harmless edits that touch this property's units: they must NOT be reported
 	harmless := map[string]bool{}
-	hd, _ := filepath.Glob(filepath.Join(verifRoot, "harmless", "*", "meta.json"))
+	hd, _ := filepath.Glob(filepath.Join(verifRoot, "harmless*", "*", "meta.json"))
 	sort.Strings(hd)
 	for _, mf := range hd {
 		var meta struct {
